@@ -350,8 +350,12 @@ def _native_generator_witness(seed):
         g = mk()
         for step in range(4):           # across a reshuffle
             before = snap(g)
-            g1, b1 = g.get_batch()
-            g2, b2 = jax.jit(lambda x: x.get_batch())(g)
+            try:
+                g1, b1 = g.get_batch()
+                g2, b2 = jax.jit(lambda x: x.get_batch())(g)
+            except Exception as e:          # a draw that works in one mode and raises in the other is a divergence too
+                bad.append(f"{name}.get_batch raises {type(e).__name__} (eager draw then the same draw under jit, call #{step}): {str(e).splitlines()[0][:160]}")
+                break
             after = snap(g)
             n += 1
             if before != after:
